@@ -336,7 +336,7 @@ def run(tier="quick"):
     rep = Report(PID, tier, models[0])
     rep.assumptions = ["only the structural clauses are decided; nothing about distribution fit is claimed"]
     rep.not_decided = ["distribution fit (moments, bin frequencies, EDF convergence)", "value-level support of the continuous "
-                       "samplers (e.g. geometric(1.0) returning 0 is out of reach)"]
+                       "samplers away from closed parameter boundaries"]
     for m in models[:1]:
         rep.configs.append(m.config)
         rules(rep, m)
